@@ -13,7 +13,11 @@
    follows the replaced ID. The step from "K goroutines execute Start
    concurrently" to "their critical sections (look-up, validation, rotation,
    following of references) take place one after the other in some order" is
-   NOT a Coq theorem about Go's scheduler. It is exactly what these two give:
+   not a theorem about Go's scheduler; since round 4 it IS a theorem about the
+   composition of the lock-table model with Start split at its look-up
+   (Model/StartConc.v, Properties/C04K.v: every admissible schedule of K
+   goroutines is a serial execution; without the lock two IDs are drawn).
+   What remains outside Coq is exactly what these two give:
    (1) Properties/Shape.v: start_lock_precedes_get, login_lock_brackets_regenerate,
        lock_events_pinned — in the source as it is now (Gen/LockPos.v,
        regenerated on every run) Start takes the per-ID lock on the presented
